@@ -93,14 +93,33 @@ def conformance_case(seed):
     c0 = rng.uniform(0.3, 0.7, d)
     lam = 10 ** rng.uniform(0, 2.5)
     logl_fn = lambda x: -lam * np.sum((np.atleast_2d(x) - c0) ** 2, axis=1)
-    # chosen innovations: mostly moderate, some large (leave the cube / wrap several times)
-    g = rng.gamma(2.0, 1.0, n) * rng.choice([0.2, 1.0, 5.0], n)
-    z = rng.standard_normal((n, d)) * rng.choice([0.3, 1.0, 4.0, 30.0], (n, 1))
     desc = dict(kernel=kernel, d=d, K=K, n=n, bk=bk, sigma=round(sigma, 4), beta=round(beta, 4), dofs=[float(v) for v in dofs])
-    bad = []
-    # ---- specification
     L = np.linalg.cholesky(covs)
     Sinv = np.linalg.inv(covs)
+    r = make_runner(kernel, u, logl_fn, ass, beta, ms, periodic, reflective, sigma)
+    tot = dict(redraws=0, decisive=0, outside=0, sweeps=0)
+    # several consecutive sweeps on the SAME runner object (each run() call performs exactly one sweep because
+    # n_max = 1/d): state carried from sweep to sweep (adapted step sizes, caches) is part of what is judged
+    for sw in range(3):
+        bad, st = _one_sweep(rng, r, kernel, d, n, means, covs, dofs, L, Sinv, ass, beta, bk, periodic, reflective, logl_fn, sw)
+        for k in ("decisive", "outside"):
+            tot[k] += st.get(k, 0)
+        tot["sweeps"] += 1
+        if st.get("redraws"):
+            tot["redraws"] = st["redraws"]
+        if bad:
+            return desc, [(key, f"sweep {sw + 1}: {what}") for key, what in bad], tot
+    return desc, [], tot
+
+
+def _one_sweep(rng, r, kernel, d, n, means, covs, dofs, L, Sinv, ass, beta, bk, periodic, reflective, logl_fn, sw):
+    u = r.u.copy()
+    ll_cur = r.logl.copy()
+    sig = np.asarray(r.sigmas, float)[ass].copy()          # step size each walker will use in this sweep
+    g = rng.gamma(2.0, 1.0, n) * rng.choice([0.2, 1.0, 5.0], n)
+    z = rng.standard_normal((n, d)) * rng.choice([0.3, 1.0, 4.0, 30.0], (n, 1))
+    bad = []
+    # ---- specification
     props = np.empty((n, d))
     inside = np.ones(n, bool)
     gam_args = []
@@ -111,15 +130,17 @@ def conformance_case(seed):
             delta = float(diff @ Sinv[a] @ diff)
             gam_args.append(((d + dofs[a]) / 2.0, 2.0 / (dofs[a] + delta)))
             s = 1.0 / g[k]
-            raw = means[a] + math.sqrt(1 - sigma ** 2) * diff + sigma * math.sqrt(s) * (L[a] @ z[k])
+            raw = means[a] + math.sqrt(max(1 - sig[k] ** 2, 0.0)) * diff + sig[k] * math.sqrt(s) * (L[a] @ z[k])
         else:
-            raw = u[k] + sigma * (L[a] @ z[k])
+            raw = u[k] + sig[k] * (L[a] @ z[k])
         p = fold_exact(raw, periodic, reflective)
         special = set(periodic or []) | set(reflective or [])
         strict = [i for i in range(d) if i not in special]
         inside[k] = all(0.0 <= p[i] <= 1.0 for i in strict)
         props[k] = p
     ll0 = logl_fn(u)
+    if np.max(np.abs(ll0 - ll_cur)) > 1e-12 * (1 + np.max(np.abs(ll0))):
+        return [("record-split", "the runner's logl is not the likelihood at the runner's u before the sweep")], {}
     ll1 = logl_fn(np.where(inside[:, None], props, u))
     if kernel == "tpcn":
         fac = np.array([sst.multivariate_t.logpdf(u[k], loc=means[ass[k]], shape=covs[ass[k]], df=dofs[ass[k]])
@@ -135,7 +156,6 @@ def conformance_case(seed):
     exp_acc = inside & (urand < alpha)
     decisive = inside & (alpha > 1e-200) & (alpha < 1 - 1e-6)
     # ---- real kernel under injected randomness
-    r = make_runner(kernel, u, logl_fn, ass, beta, ms, periodic, reflective, sigma)
     seen_fac = []
     with attach.Hooks() as hk:
         hk.wrap(type(r), "_compute_acceptance_factor", after=lambda ctx, res, *a, **k: seen_fac.append(np.array(res, float)))
@@ -147,29 +167,32 @@ def conformance_case(seed):
             try:
                 out = r.run()
             except TapCap:
-                return desc, [("redraw-loop", "proposal loop consumed more than 50 normal draws per walker (redraw until inside)")], dict(redraws=-1)
+                return [("redraw-loop", "proposal loop consumed more than 50 normal draws per walker (redraw until inside)")], dict(redraws=-1)
     n_randn = tap.counts["randn"]
     n_gamma = tap.counts["gamma"]
     extra = n_randn - n
     if extra > 0:
         bad.append(("redraw-until-inside", f"{n_randn} normal draws for {n} proposals: {extra} out-of-cube proposals were re-drawn instead of rejected "
                     f"(truncated, uncorrected proposal law)"))
-        return desc, bad, dict(redraws=extra, decisive=int(decisive.sum()))
+        return bad, dict(redraws=extra, decisive=int(decisive.sum()))
+    if extra < 0 or tap.counts["rand"] != 1:
+        bad.append(("draw-count", f"{n_randn} normal draws and {tap.counts['rand']} uniform vectors for {n} proposals in one sweep"))
+        return bad, {}
     if kernel == "tpcn":
         if n_gamma != n:
             bad.append(("gamma-count", f"{n_gamma} gamma draws for {n} proposals"))
         got = [(e[3].get("shape", e[2][0] if e[2] else None), e[3].get("scale", e[2][1] if len(e[2]) > 1 else None)) for e in tap.log if e[0] == "gamma"]
         for k, (gs, ge) in enumerate(zip(got, gam_args)):
             if abs(gs[0] - ge[0]) > 1e-9 * ge[0] or abs(gs[1] - ge[1]) > 1e-9 * ge[1]:
-                bad.append(("gamma-parameters", f"walker {k}: gamma(shape={gs[0]!r}, scale={gs[1]!r}) but the tpCN law needs shape=(d+nu)/2={ge[0]!r}, scale=2/(nu+delta)={ge[1]!r}"))
+                bad.append(("gamma-parameters", f"walker {k}: gamma(shape={gs[0]!r}, scale={gs[1]!r}) but the tpCN law needs shape=(d+nu)/2={ge[0]!r}, "
+                            f"scale=2/(nu+delta(current state))={ge[1]!r}"))
                 break
     u_new, x_new, l_new = out[0], out[1], out[2]
     got_acc = np.any(u_new != u, axis=1) | (l_new != ll0)
-    # proposals as realised (accepted walkers reveal them)
     for k in range(n):
         if exp_acc[k] and got_acc[k]:
             if np.max(np.abs(u_new[k] - props[k])) > 1e-9:
-                bad.append(("proposal-map", f"walker {k}: accepted proposal {u_new[k]} differs from the {kernel} map {props[k]} (boundary {bk})"))
+                bad.append(("proposal-map", f"walker {k}: accepted proposal {u_new[k]} differs from the {kernel} map {props[k]} (boundary {bk}, step size {sig[k]:.4g})"))
                 break
     if seen_fac:
         f = seen_fac[0]
@@ -188,7 +211,7 @@ def conformance_case(seed):
         bad.append(("left-cube", "a walker left the unit cube"))
     if np.max(np.abs(x_new - u_new)) > 0 or np.max(np.abs(l_new - logl_fn(u_new))) > 1e-12 * (1 + np.max(np.abs(l_new))):
         bad.append(("record-split", "x / logl not updated together with u"))
-    return desc, bad, dict(redraws=0, decisive=int(decisive.sum()), outside=int((~inside).sum()))
+    return bad, dict(redraws=0, decisive=int(decisive.sum()), outside=int((~inside).sum()))
 
 
 def _conf_batch(seeds):
@@ -383,7 +406,7 @@ def run():
             continue
         for sd, desc, bad, stt in val:
             ck.case(desc, nontrivial=stt.get("decisive", 0) > 0)
-            ck.event("kernel sweeps under injected randomness compared with the specification")
+            ck.event("kernel sweeps under injected randomness compared with the specification", stt.get("sweeps", 1))
             ck.event("walkers with a decisive accept/reject probe", stt.get("decisive", 0))
             ck.event("proposals driven outside the cube", stt.get("outside", 0))
             for key, what in bad:
